@@ -360,8 +360,10 @@ def write_evidence(prop, tier, seed, engines, agg, wall_s, nviol, rc):
         "known_findings_hit": known,
         "components": {
             "real": ["symmray (all modules, imported from /repo working tree)", "autoray", "numpy"],
-            "stub": [],
-            "absent_not_exercised": ["scipy (expm, SVD fallback)", "quimb (network builders, TFIM/Heisenberg)",
+            "stub": ["scipy.linalg.expm dense kernel (scipy is absent from /venv): core.expm_stub, "
+                     "a pure-numpy scaling-and-squaring Taylor series registered with autoray; "
+                     "symmray's block-wise expm wrapper around it is real code"],
+            "absent_not_exercised": ["scipy (SVD fallback)", "quimb (network builders, TFIM/Heisenberg)",
                                      "torch/jax backends"],
         },
         "exit_code": rc,
